@@ -752,6 +752,7 @@ pub fn run(ctx: &mut Ctx) {
     ctx.run_suite(&FileSuite);
     ctx.run_suite(&super::c09net::ListenerGarbageSuite);
     ctx.run_suite(&super::c09num::HostileNumbersSuite);
+    ctx.run_suite(&super::c15::UdpSuite);
     ctx.assume("buffering bounds are checked where they are observable from outside: HTTP/1.1 head (C08 head-size-bound suite), partial head limit here; the 16 KiB ClientHello peek is bounded by construction of the loop and exercised by C12");
     ctx.assume("a panic anywhere in the process (including tasks spawned by the library, which the runtime swallows) is detected through the process-wide panic hook counter");
 }
@@ -770,6 +771,7 @@ pub fn replay(ctx: &mut Ctx, suite: &str, case: &Value) -> bool {
         "connections-garbage" => ctx.replay_suite(&ConnSuite, case),
         "configuration-files" => ctx.replay_suite(&FileSuite, case),
         "listeners-garbage" => ctx.replay_suite(&super::c09net::ListenerGarbageSuite, case),
+        "udp-relay-header" => ctx.replay_suite(&super::c15::UdpSuite, case),
         "hostile-numbers" => ctx.replay_suite(&super::c09num::HostileNumbersSuite, case),
         _ => false,
     }
